@@ -24,6 +24,15 @@
 //!   * `C txdata-key` / `C txdata-segwit-script` / `C script-verdict`   hand-built segwit-v0 spends
 //!                             with an uncompressed key (`handbuilt_segwit_keys`): valid for Script,
 //!                             refused by the interpreter's own context rule (model level).
+//!   * `J accessors` / `C verify-sig` / `C verify-sig-oob` / `J interp-reuse`   (`routes`) the remaining
+//!                             public routes on every base spend: is_legacy / is_segwit_v0 /
+//!                             is_taproot_v1_* / sig_type against Spec/Spend's classification,
+//!                             `verify_sig` against the independent oracle, a second use of the object;
+//!   * `raw_channel`           designated txdata no encoder produces (short inner scripts, template
+//!                             look-alikes, control blocks with valid commitments over arbitrary leaves,
+//!                             scripts the decoder refuses today for one reason each), JUDGED
+//!                             (`J interp-sound(-m)`, `J constraints(-m)`), like the adversarial stream;
+//!   * mutations `slot<i>:*` / `slotswap<i>:<j>`   slot-by-slot sweep of every designated satisfaction.
 //! Which (pubkey, signature) pairs verify is established by this file independently of the
 //! code under test (digest re-derived from the produced data, BIP341 rule for 65-byte
 //! signatures applied by hand) and sent to the Lean side as oracle tables.
@@ -193,6 +202,90 @@ pub fn run_interp_mode(tx: &Transaction, prevout: &TxOut, ss: &ScriptBuf, wit: &
 
 pub fn run_interp(tx: &Transaction, prevout: &TxOut, ss: &ScriptBuf, wit: &[Vec<u8>]) -> Run {
     run_interp_mode(tx, prevout, ss, wit, &Mode::Real)
+}
+
+/* ------------------------------------------------------------------ the other public routes of one spend */
+
+/// sighash domain of a spend, from the bytes alone (the same classification `register_at` uses)
+fn dom_of_spend(spk: &ScriptBuf, ss: &ScriptBuf, wit: &[Vec<u8>]) -> u32 {
+    if spk.is_p2tr() { return if wit.len() == 1 { DOM_TAPKEY } else { DOM_TAPSCRIPT }; }
+    if spk.is_p2wpkh() || spk.is_p2wsh() { return DOM_SEGWITV0; }
+    if spk.is_p2sh() {
+        if let Some(r) = last_push(ss) { let r = ScriptBuf::from_bytes(r); if r.is_p2wpkh() || r.is_p2wsh() { return DOM_SEGWITV0; } }
+    }
+    DOM_LEGACY
+}
+
+/// Routes besides the iterators, on one (accepted-by-`from_txdata`) spend:
+///   `J accessors`   is_legacy / is_segwit_v0 / is_taproot_v1_key_spend / is_taproot_v1_script_spend /
+///                   sig_type against Spec/Spend's classification of the output;
+///   `C verify-sig`  `Interpreter::verify_sig` on every (key, parseable signature element) pair = the
+///                   independent oracle (`D dsig`), `C verify-sig-oob` with an input index out of range;
+///   `J interp-reuse` a second `iter()` over the SAME object, after `inferred_descriptor()` and a full
+///                   `iter_assume_sigs()` pass, yields what the first one did.
+fn routes(out: &mut Out, tx: &Transaction, idx: usize, prevs: &[TxOut], ss: &ScriptBuf, wit: &[Vec<u8>], pks: &[Vec<u8>], info: &str) {
+    let witness = Witness::from_slice(wit);
+    let spk = &prevs[idx].script_pubkey;
+    let r = std::panic::catch_unwind(std::panic::AssertUnwindSafe(|| -> Option<(String, Vec<(String, String)>, bool, bool)> {
+        let interp = Interpreter::from_txdata(spk, ss, &witness, tx.input[idx].sequence, tx.lock_time).ok()?;
+        let b = |x: bool| if x { '1' } else { '0' };
+        let flags = format!("{}{}{}{}:{}", b(interp.is_legacy()), b(interp.is_segwit_v0()), b(interp.is_taproot_v1_key_spend()), b(interp.is_taproot_v1_script_spend()),
+            match interp.sig_type() { miniscript::SigType::Ecdsa => "ecdsa", miniscript::SigType::Schnorr => "schnorr" });
+        // verify_sig on every pair
+        let all = Prevouts::All(prevs);
+        let items = ss_items(ss).unwrap_or_default();
+        let mut elems: Vec<&Vec<u8>> = items.iter().chain(wit.iter()).collect();
+        elems.sort(); elems.dedup();
+        let mut lines: Vec<(String, String)> = vec![];
+        let mut n_false = 0;
+        let mut oob = false;
+        let dom = dom_of_spend(spk, ss, wit);
+        for e in elems {
+            for pk in pks {
+                let ks = if spk.is_p2tr() {
+                    match (XOnlyPublicKey::from_slice(pk), miniscript::bitcoin::taproot::Signature::from_slice(e)) {
+                        (Ok(x), Ok(sg)) => KeySigPair::Schnorr(x, sg), _ => continue }
+                } else {
+                    match (PublicKey::from_slice(pk), miniscript::bitcoin::ecdsa::Signature::from_slice(e)) {
+                        (Ok(x), Ok(sg)) if pk.len() != 32 => KeySigPair::Ecdsa(x, sg), _ => continue }
+                };
+                // a key-path signature is checked against the OUTPUT key only
+                if dom == DOM_TAPKEY && pk[..] != spk.as_bytes()[2..34] { continue; }
+                let ok = interp.verify_sig(secp(), tx, idx, &all, &ks);
+                let ser = match &ks { KeySigPair::Ecdsa(_, sg) => sg.to_vec(), KeySigPair::Schnorr(_, sg) => sg.to_vec() };
+                if ok || n_false < 2 {
+                    if !ok { n_false += 1; }
+                    lines.push((format!("C verify-sig {} {} {}", dom, hex(pk), hex(&ser)), ok.to_string()));
+                }
+                if !oob {
+                    oob = true;
+                    let r = interp.verify_sig(secp(), tx, tx.input.len(), &all, &ks);
+                    lines.push((format!("C verify-sig-oob {} {} {}", dom, hex(pk), hex(&ser)), r.to_string()));
+                }
+            }
+        }
+        // second use of the same object
+        let collect = |it: miniscript::interpreter::Iter| -> Vec<String> {
+            it.map(|r| match r { Ok(c) => canon_constraint(&c), Err(e) => format!("reject:{}", err_class(&e)) }).collect()
+        };
+        let first = collect(interp.iter(secp(), tx, idx, &all));
+        let d1 = interp.inferred_descriptor_string();
+        let _ = interp.inferred_descriptor();
+        let a1 = collect(interp.iter_assume_sigs());
+        let second = collect(interp.iter(secp(), tx, idx, &all));
+        let a2 = collect(interp.iter_assume_sigs());
+        let same = first == second && a1 == a2 && d1 == interp.inferred_descriptor_string();
+        Some((flags, lines, same, true))
+    }));
+    match r {
+        Err(_) => out.line(&format!("J nopanic interpreter-routes {} {} {} | {} PANIC", hex(spk.as_bytes()), hex(ss.as_bytes()), desc::wit_wire(wit), info), "ok"),
+        Ok(None) => {}
+        Ok(Some((flags, lines, same, _))) => {
+            out.line(&format!("J accessors {} {} {} {} | {}", hex(spk.as_bytes()), hex(ss.as_bytes()), desc::wit_wire(wit), flags, info), "ok");
+            for (l, v) in lines { out.line(&l, &v); }
+            out.line(&format!("J interp-reuse {} | {}", if same { "same" } else { "diff" }, info), "ok");
+        }
+    }
 }
 
 /* ------------------------------------------------------------------ independent validity oracle */
@@ -458,6 +551,7 @@ fn loc(prevout: &TxOut) -> (usize, Vec<TxOut>) {
     LOC.with(|l| l.borrow().clone()).unwrap_or((0, vec![prevout.clone()]))
 }
 const X_ONE: u8 = 8;
+thread_local! { static SWEEP: std::cell::Cell<bool> = std::cell::Cell::new(false); }
 const X_ASSUME: u8 = 1;
 const X_BAN: u8 = 2;
 const X_INFERRED: u8 = 4;
@@ -524,6 +618,7 @@ fn judge_x(out: &mut Out, case: &Case, tx: &Transaction, prevout: &TxOut, ss: &S
         out.line(&format!("J nopanic interpreter {} | {} PANIC", head, info), "ok");
         return false;
     }
+    if extras & (X_INFERRED | X_ONE) != 0 { routes(out, tx, idx, &prevs, ss, wit, &pks, &info); }
     if own {
         out.line(&format!("J interp-accepts-own {} {} | {}", head, run.verdict, info), "ok");
     }
@@ -755,6 +850,17 @@ fn adversarial(out: &mut Out, rng: &mut Rng, n: usize) {
             }
         }));
         if r.is_err() { panicked = true; }
+        // judged, not only panic-free: whatever the interpreter accepts here, Script must accept
+        if !panicked {
+            let class = if tx.version.0 < 2 { "csv-tx-version-1" } else { "plain" };
+            let head = format!("{} {} {} {} {} {} {}", class, tx.version.0, tx.lock_time.to_consensus_u32(), tx.input[0].sequence.to_consensus_u32(),
+                hex(prevout.script_pubkey.as_bytes()), hex(ss.as_bytes()), desc::wit_wire(&wit));
+            if verdicts[0] == "accept" || verdicts[1] == "accept" {
+                register_all(out, &tx, &prevout, &ss, &wit, &pk_bytes(&[0, 1, 2, 3]));
+                out.line(&format!("J interp-sound {} {} | adversarial", head, verdicts[0]), "ok");
+                out.line(&format!("J interp-sound-m assume {} {} | adversarial", head, verdicts[1]), "ok");
+            }
+        }
         out.count(&format!("c13 adv: {}", verdicts[0].split(':').take(3).collect::<Vec<_>>().join(":")));
         out.line(&format!("J nopanic interp-adv {} {} {} {}", hex(prevout.script_pubkey.as_bytes()), hex(ss.as_bytes()), desc::wit_wire(&wit),
             if panicked { "PANIC" } else { "OK" }), "ok");
@@ -1039,6 +1145,30 @@ fn do_case(out: &mut Out, rng: &mut Rng, case: &Case, leaves: &[Node], assets: &
             }
         }
     }
+    // ---- slot sweep (designated corpus, first asset subset): EVERY satisfaction slot replaced by empty /
+    // 1 / a parseable junk signature / a valid signature of EVERY key of the descriptor, and every pair
+    // of slots swapped - a later multisig slot, a threshold child after k are satisfied, a skipped or_* /
+    // andor branch holding junk or one more valid signature; never truncated, also in assume mode
+    if special && !mall && SWEEP.with(|c| c.get()) {
+        let mut pool: Vec<(String, Vec<u8>)> = vec![("empty".into(), vec![]), ("one".into(), vec![1]),
+            ("junk".into(), if tap { vec![0x42u8; 64] } else { vec![0x30, 0x06, 0x02, 0x01, 0x01, 0x02, 0x01, 0x01, 0x01] })];
+        for id in case.key_ids.iter() {
+            let sg = if tap { leaf_script.as_ref().and_then(|ls| signer.schnorr_leaf(*id, ls, TapSighashType::Default)) }
+                else { signer.ecdsa(*id, EcdsaSighashType::All) };
+            if let Some(sg) = sg { pool.push((format!("sig{}", id), sg)); }
+        }
+        for i in 0..n {
+            if structural.contains(&i) { continue; }
+            for (name, r) in &pool {
+                if *r == all[i] { continue; }
+                let mut v = all.clone(); v[i] = r.clone(); muts.push((format!("slot{}:{}", i, name), v, n_ss));
+            }
+            for j in (i + 1)..n {
+                if (i < n_ss) != (j < n_ss) || all[i] == all[j] || structural.contains(&j) { continue; }
+                let mut v = all.clone(); v.swap(i, j); muts.push((format!("slotswap{}:{}", i, j), v, n_ss));
+            }
+        }
+    }
     // ---- input class "the WRONG stack is non-empty" on an otherwise valid spend, every output type
     { let mut v = vec![vec![1u8]]; v.extend(all.iter().cloned()); muts.push(("xs:ss-prepend-01".into(), v, n_ss + 1)); }
     { let mut v = all.clone(); v.insert(n_ss, vec![1]); muts.push(("xs:wit-add-01".into(), v, n_ss)); }
@@ -1047,9 +1177,9 @@ fn do_case(out: &mut Out, rng: &mut Rng, case: &Case, leaves: &[Node], assets: &
     // Fisher-Yates, keep n_mut
     for i in (1..muts.len()).rev() { let j = rng.below(i + 1); muts.swap(i, j); }
     // the interesting classes first, whatever the shuffle says
-    muts.sort_by_key(|(name, _, _)| if name.starts_with("pair") || name.starts_with("xs:") { 0u8 }
+    muts.sort_by_key(|(name, _, _)| if name.starts_with("pair") || name.starts_with("xs:") || name.starts_with("slot") { 0u8 }
         else if name.starts_with("append00") || name.starts_with("explicit00") || name.starts_with("srepl") { 1 } else { 2 });
-    let n_mut = n_mut.max(muts.iter().filter(|(n, _, _)| n.starts_with("pair") || n.starts_with("xs:")).count() + n_mut / 2);
+    let n_mut = n_mut.max(muts.iter().filter(|(n, _, _)| n.starts_with("pair") || n.starts_with("xs:") || n.starts_with("slot")).count() + n_mut / 2);
     muts.truncate(n_mut);
     let mut mut_no = 0usize;
     for (name, items, k) in muts {
@@ -1061,7 +1191,7 @@ fn do_case(out: &mut Out, rng: &mut Rng, case: &Case, leaves: &[Node], assets: &
         let leaf2 = leaf_of(leaves, &w2);
         mut_no += 1;
         let acc = judge_x(out, case, &sat.tx, &sat.prevout, &ss2, &w2, false, &format!("{} {} mut:{}", mode, assets.wire(), name), leaf2,
-            if mut_no % 3 == 0 || name.starts_with("pair") { X_ASSUME } else { 0 });
+            if mut_no % 3 == 0 || name.starts_with("pair") || name.starts_with("slot") { X_ASSUME } else { 0 });
         if acc { out.count("c13 mutation accepted by interpreter"); }
     }
     // a non-minimal push in the scriptSig (same items)
@@ -1152,6 +1282,280 @@ fn handbuilt_segwit_keys(out: &mut Out) {
     }
 }
 
+/* ------------------------------------------------------------------ raw channel: txdata no encoder of the library produces */
+
+/// Judge one raw (scriptPubKey, scriptSig, witness): `J interp-sound` / `-m assume` (accept => Script
+/// accepts), `J constraints` on accepts, `J accessors` / `C verify-sig` / `J interp-reuse` when
+/// `from_txdata` builds an interpreter, `J nopanic` throughout.  Returns the `iter` verdict.
+fn judge_raw(out: &mut Out, tx: &Transaction, spk: &ScriptBuf, ss: &ScriptBuf, wit: &[Vec<u8>], pks: &[Vec<u8>], info: &str) -> String {
+    let prevout = TxOut { value: Amount::from_sat(VALUE), script_pubkey: spk.clone() };
+    let run = run_interp(tx, &prevout, ss, wit);
+    register_all(out, tx, &prevout, ss, wit, pks);
+    let class = if tx.version.0 < 2 { "csv-tx-version-1" } else { "plain" };
+    let head = format!("{} {} {} {} {} {} {}", class, tx.version.0, tx.lock_time.to_consensus_u32(), tx.input[0].sequence.to_consensus_u32(),
+        hex(spk.as_bytes()), hex(ss.as_bytes()), desc::wit_wire(wit));
+    if run.verdict == "PANIC" { out.line(&format!("J nopanic interpreter {} | {} PANIC", head, info), "ok"); return run.verdict; }
+    out.line(&format!("J interp-sound {} {} | {}", head, run.verdict, info), "ok");
+    if run.verdict == "accept" {
+        let cs = if run.cs.is_empty() { "-".to_string() } else { run.cs.join(",") };
+        out.line(&format!("J constraints {} {} | {}", head, cs, info), "ok");
+    }
+    let ra = run_interp_mode(tx, &prevout, ss, wit, &Mode::Assume);
+    if ra.verdict == "PANIC" { out.line(&format!("J nopanic interpreter-assume {} | {} PANIC", head, info), "ok"); return run.verdict; }
+    out.line(&format!("J interp-sound-m assume {} {} | {}", head, ra.verdict, info), "ok");
+    if ra.verdict == "accept" {
+        let cs = if ra.cs.is_empty() { "-".to_string() } else { ra.cs.join(",") };
+        out.line(&format!("J constraints-m assume {} {} | {}", head, cs, info), "ok");
+    }
+    routes(out, tx, 0, std::slice::from_ref(&prevout), ss, wit, pks, info);
+    run.verdict
+}
+
+fn p2sh_spk(redeem: &[u8]) -> ScriptBuf { ScriptBuf::new_p2sh(&ScriptBuf::from_bytes(redeem.to_vec()).script_hash()) }
+fn p2wsh_prog(script: &[u8]) -> Vec<u8> { let mut v = vec![0x00, 0x20]; v.extend_from_slice(sha256::Hash::hash(script).as_byte_array()); v }
+fn push_of(b: &[u8]) -> Vec<u8> { ss_build(&[b.to_vec()]).into_bytes() }
+
+/// a p2tr output committing to `leaf` (leaf version `ver`) at depth `siblings.len()` under internal key 3:
+/// (scriptPubKey, control block)
+fn tr_commit(leaf: &[u8], ver: u8, siblings: &[[u8; 32]]) -> (ScriptBuf, Vec<u8>) {
+    use miniscript::bitcoin::taproot::TapNodeHash;
+    let lv = LeafVersion::from_consensus(ver).unwrap_or(LeafVersion::TapScript);
+    let mut cur = TapNodeHash::from(TapLeafHash::from_script(&ScriptBuf::from_bytes(leaf.to_vec()), lv));
+    for sib in siblings { cur = TapNodeHash::from_node_hashes(cur, TapNodeHash::from_byte_array(*sib)); }
+    let internal = ast::xonly_key(3);
+    let (tweaked, parity) = internal.tap_tweak(secp(), Some(cur));
+    let mut spk = vec![0x51, 0x20]; spk.extend_from_slice(&tweaked.to_inner().serialize());
+    let mut cb = vec![ver | (if parity == secp256k1::Parity::Odd { 1 } else { 0 })];
+    cb.extend_from_slice(&internal.serialize());
+    for sib in siblings { cb.extend_from_slice(sib); }
+    (ScriptBuf::from_bytes(spk), cb)
+}
+
+/// Schnorr signature of key `id` for a tapscript leaf of a raw output
+fn schnorr_sign_leaf(tx: &Transaction, spk: &ScriptBuf, leaf: &[u8], id: u32) -> Option<Vec<u8>> {
+    let lh = TapLeafHash::from_script(&ScriptBuf::from_bytes(leaf.to_vec()), LeafVersion::TapScript);
+    let prevs = [TxOut { value: Amount::from_sat(VALUE), script_pubkey: spk.clone() }];
+    let mut cache = SighashCache::new(tx);
+    let d = cache.taproot_script_spend_signature_hash(0, &Prevouts::All(&prevs), lh, TapSighashType::Default).ok()?;
+    let kp = secp256k1::Keypair::from_secret_key(secp(), &ast::secret(id % 100));
+    Some(secp().sign_schnorr_with_aux_rand(&Message::from_digest(d.to_byte_array()), &kp, &[5u8; 32]).as_ref().to_vec())
+}
+
+/// Designated raw inputs (every tier).  (1) inner scripts of length 0, 1, 2 and other non-scripts behind
+/// EVERY script-hash wrapper, alone and over an extra `01`; (2) look-alikes of the witness-program
+/// templates one byte short / long, as scriptPubKey and as P2SH redeem script, and other witness
+/// versions; (3) control blocks of every length class, both parities, leaf versions c0 / c2, with a VALID
+/// commitment over arbitrary leaves (miniscript, non-miniscript, empty), truncated / extended by one
+/// byte; (4) scripts the decoder REFUSES today for exactly one reason each (top-level K / V / W type,
+/// missing s:, multi in a tap leaf, multi_a and x-only keys in p2wsh, 21-key multi, 202 opcodes next to
+/// the admitted 201, non-minimal pushes and numbers) with witnesses that Script would run.
+fn raw_channel(out: &mut Out) {
+    let tx = make_tx(2, 0, 0xffff_fffe);
+    let value = Amount::from_sat(VALUE);
+    let all = EcdsaSighashType::All;
+    let pks = pk_bytes(&[0, 1, 2, 3, 80, 81]);
+    let k = |i: u32| ast::full_key(i).to_bytes();
+    let x = |i: u32| ast::xonly_key(i).serialize().to_vec();
+    let push = |b: &[u8]| push_of(b);
+    let cat = |parts: &[&[u8]]| -> Vec<u8> { parts.iter().flat_map(|p| p.iter().cloned()).collect() };
+    let n_acc = std::cell::Cell::new(0u32);
+    let mut go = |out: &mut Out, spk: ScriptBuf, ss: ScriptBuf, wit: Vec<Vec<u8>>, info: String| {
+        let v = judge_raw(out, &tx, &spk, &ss, &wit, &pks, &info);
+        out.count(&format!("c13 raw: {}", v.split(':').take(3).collect::<Vec<_>>().join(":")));
+        if v == "accept" { n_acc.set(n_acc.get() + 1); }
+    };
+    // every script-hash wrapper around `script`, stack items `below` (bottom first); legacy / segwit sigs
+    // are made by the caller through `sign(script, segwit)`
+    let wrappers = |out: &mut Out, go: &mut dyn FnMut(&mut Out, ScriptBuf, ScriptBuf, Vec<Vec<u8>>, String), script: &[u8], below_legacy: &[Vec<u8>], below_segwit: &[Vec<u8>], tag: &str| {
+        let mut ssi: Vec<Vec<u8>> = below_legacy.to_vec(); ssi.push(script.to_vec());
+        go(out, p2sh_spk(script), ss_build(&ssi), vec![], format!("raw sh {}", tag));
+        let mut w: Vec<Vec<u8>> = below_segwit.to_vec(); w.push(script.to_vec());
+        go(out, ScriptBuf::from_bytes(p2wsh_prog(script)), ScriptBuf::new(), w.clone(), format!("raw wsh {}", tag));
+        let prog = p2wsh_prog(script);
+        go(out, p2sh_spk(&prog), ss_build(&[prog.clone()]), w, format!("raw sh-wsh {}", tag));
+        go(out, ScriptBuf::from_bytes(script.to_vec()), ss_build(below_legacy), vec![], format!("raw bare {}", tag));
+    };
+    // ---- (1) short inner scripts
+    let shorts: Vec<Vec<u8>> = vec![vec![], vec![0x00], vec![0x51], vec![0x00, 0x14], vec![0x00, 0x20], vec![0x51, 0x20], vec![0x01], vec![0x4c], vec![0xac],
+        vec![0x51, 0x51], vec![0x00, 0x51], vec![0x51, 0x00], vec![0x02, 0x00], vec![0x4d, 0x01], vec![0x52], vec![0x60], vec![0x4f], vec![0x61], vec![0x51, 0x69], vec![0x51, 0x75, 0x51]];
+    for sc in &shorts {
+        for below in [vec![], vec![vec![1u8]], vec![vec![]]] {
+            wrappers(out, &mut go, sc, &below, &below, &format!("short {} below {}", hex(sc), desc::wit_wire(&below)));
+            let (spk, cb) = tr_commit(sc, 0xc0, &[]);
+            let mut w = below.clone(); w.push(sc.clone()); w.push(cb);
+            go(out, spk, ScriptBuf::new(), w, format!("raw tr-leaf short {}", hex(sc)));
+        }
+    }
+    // ---- (2) witness-program look-alikes
+    let h20 = hash160::Hash::hash(&k(0)).to_byte_array().to_vec();
+    let ws = cat(&[&push(&k(0)), &[0xac]]);                     // <K0> CHECKSIG
+    let h32 = sha256::Hash::hash(&ws).to_byte_array().to_vec();
+    let sig_wpkh = ecdsa_sign(&tx, 0, value, &p2pkh_code(&k(0)), true, 0, all).unwrap_or_default();
+    let sig_wsh = ecdsa_sign(&tx, 0, value, &ScriptBuf::from_bytes(ws.clone()), true, 0, all).unwrap_or_default();
+    let mut progs: Vec<(String, Vec<u8>)> = vec![];
+    for (ver, vname) in [(0x00u8, "v0"), (0x51, "v1"), (0x52, "v2"), (0x60, "v16"), (0x4f, "v-1")] {
+        progs.push((format!("{} 20", vname), cat(&[&[ver, 0x14], &h20])));
+        progs.push((format!("{} 19", vname), cat(&[&[ver, 0x13], &h20[..19]])));
+        progs.push((format!("{} 21", vname), cat(&[&[ver, 0x15], &h20, &[0x00]])));
+        progs.push((format!("{} 20+1", vname), cat(&[&[ver, 0x14], &h20, &[0x00]])));
+        progs.push((format!("{} 32", vname), cat(&[&[ver, 0x20], &h32])));
+        progs.push((format!("{} 31", vname), cat(&[&[ver, 0x1f], &h32[..31]])));
+        progs.push((format!("{} 33", vname), cat(&[&[ver, 0x21], &h32, &[0x00]])));
+        progs.push((format!("{} 32+1", vname), cat(&[&[ver, 0x20], &h32, &[0x51]])));
+        progs.push((format!("{} 32 pushdata1", vname), cat(&[&[ver, 0x4c, 0x20], &h32])));
+    }
+    progs.push(("v1 x-only key 0".into(), cat(&[&[0x51, 0x20], &x(0)])));
+    for (name, prog) in &progs {
+        for (wn, w) in [("key", vec![sig_wpkh.clone(), k(0)]), ("script", vec![sig_wsh.clone(), ws.clone()]), ("none", vec![]), ("one", vec![vec![1u8]])] {
+            go(out, ScriptBuf::from_bytes(prog.clone()), ScriptBuf::new(), w.clone(), format!("raw native look-alike {} wit {}", name, wn));
+            go(out, p2sh_spk(prog), ss_build(&[prog.clone()]), w.clone(), format!("raw nested look-alike {} wit {}", name, wn));
+        }
+        go(out, ScriptBuf::from_bytes(prog.clone()), ss_build(&[sig_wpkh.clone(), k(0)]), vec![], format!("raw native look-alike {} scriptSig key", name));
+    }
+    // ---- (3) control blocks
+    let sibs: [[u8; 32]; 3] = [[0x11; 32], [0x22; 32], [0x33; 32]];
+    let leaf_pk = cat(&[&push(&x(0)), &[0xac]]);
+    let leaves: Vec<(&str, Vec<u8>, bool)> = vec![("1", vec![0x51], false), ("pk(x0)", leaf_pk.clone(), true), ("OP_RETURN", vec![0x6a], false), ("empty", vec![], false),
+        ("33-byte key", cat(&[&push(&k(0)), &[0xac]]), true), ("two pushes", vec![0x51, 0x51], false), ("0", vec![0x00], false)];
+    for (lname, leaf, signed) in &leaves {
+        for depth in 0..=3usize {
+            for ver in [0xc0u8, 0xc2] {
+                let (spk, cb) = tr_commit(leaf, ver, &sibs[..depth]);
+                let below: Vec<Vec<u8>> = if *signed { vec![schnorr_sign_leaf(&tx, &spk, leaf, 0).unwrap_or_default()] } else { vec![] };
+                let mut variants: Vec<(String, Vec<u8>)> = vec![("exact".into(), cb.clone())];
+                if ver == 0xc0 {
+                    { let mut c = cb.clone(); c[0] ^= 1; variants.push(("parity".into(), c)); }
+                    { let mut c = cb.clone(); c.pop(); variants.push(("short1".into(), c)); }
+                    { let mut c = cb.clone(); c.push(0x00); variants.push(("long1".into(), c)); }
+                    { let mut c = cb.clone(); c.extend_from_slice(&[0x44; 32]); variants.push(("deeper".into(), c)); }
+                    if depth > 0 { let mut c = cb.clone(); c.truncate(c.len() - 32); variants.push(("shallower".into(), c)); }
+                    { let mut c = cb.clone(); c[0] = 0x50 | (c[0] & 1); variants.push(("annex-tag".into(), c)); }
+                }
+                for (vn, c) in variants {
+                    let mut w = below.clone(); w.push(leaf.clone()); w.push(c);
+                    // a leaf version other than 0xc0 succeeds unconditionally by consensus but is refused by
+                    // Spec/Spend (DISCOURAGE_UPGRADABLE_TAPROOT_VERSION): not a soundness input, only observed
+                    if ver != 0xc0 {
+                        let prevout = TxOut { value, script_pubkey: spk.clone() };
+                        let r = run_interp(&tx, &prevout, &ScriptBuf::new(), &w);
+                        out.line(&format!("J nopanic interp-adv {} - {} {}", hex(spk.as_bytes()), desc::wit_wire(&w), if r.verdict == "PANIC" { "PANIC" } else { "OK" }), "ok");
+                        if r.verdict == "accept" { out.count("observation: tapscript spend under leaf version 0xc2 evaluated and accepted (consensus: unconditional success; Spec/Spend refuses the version)"); }
+                        continue;
+                    }
+                    go(out, spk.clone(), ScriptBuf::new(), w, format!("raw tr leaf {} depth {} cb {}", lname, depth, vn));
+                }
+            }
+        }
+    }
+    // ---- (4) refused today, one reason each (and the admitted neighbour where there is one)
+    let sg = |script: &[u8], segwit: bool, id: u32| ecdsa_sign(&tx, 0, value, &ScriptBuf::from_bytes(script.to_vec()), segwit, id, all).unwrap_or_default();
+    let mut refused: Vec<(String, Vec<u8>, Vec<u32>)> = vec![   // (reason, script, signer ids bottom..top)
+        ("top-level K".into(), push(&k(0)), vec![0]),
+        ("top-level K no sig".into(), push(&k(0)), vec![]),
+        ("top-level V".into(), cat(&[&push(&k(0)), &[0xad]]), vec![0]),
+        ("top-level W".into(), cat(&[&[0x7c], &push(&k(0)), &[0xac]]), vec![0]),
+        ("and_b without s:".into(), cat(&[&push(&k(0)), &[0xac], &push(&k(1)), &[0xac, 0x9a]]), vec![1, 0]),
+        ("and_b without s: other order".into(), cat(&[&push(&k(0)), &[0xac], &push(&k(1)), &[0xac, 0x9a]]), vec![0, 1]),
+        ("or_b without s:".into(), cat(&[&push(&k(0)), &[0xac], &push(&k(1)), &[0xac, 0x9b]]), vec![1, 0]),
+        ("multi_a in v0".into(), cat(&[&push(&k(0)), &[0xac], &push(&k(1)), &[0xba, 0x51, 0x9c]]), vec![1, 0]),
+        ("x-only key in v0".into(), cat(&[&push(&x(0)), &[0xac]]), vec![0]),
+        ("pushdata1 key".into(), cat(&[&[0x4c, 0x21], &k(0), &[0xac]]), vec![0]),
+        ("non-minimal k".into(), cat(&[&push(&k(0)), &[0xac, 0x7c], &push(&k(1)), &[0xac, 0x93, 0x01, 0x01, 0x87]]), vec![1, 0]),
+        ("trailing opcode".into(), cat(&[&push(&k(0)), &[0xac, 0x61]]), vec![0]),
+        ("v: over verify".into(), cat(&[&push(&k(0)), &[0xac, 0x69, 0x51]]), vec![0]),
+    ];
+    { // multi with 21 keys (20 is the consensus maximum), signed by the first
+        let mut sc = vec![0x51];
+        for i in 0..21u32 { sc.extend(push(&k(i))); }
+        sc.extend([0x01, 0x15, 0xae]);
+        refused.push(("multi 21 keys".into(), sc, vec![0]));
+        let mut sc = vec![0x51];
+        for i in 0..20u32 { sc.extend(push(&k(i))); }
+        sc.extend([0x01, 0x14, 0xae]);
+        refused.push(("multi 20 keys (admitted)".into(), sc, vec![0]));
+    }
+    for (reason, script, signers) in &refused {
+        let multi = reason.starts_with("multi ");
+        let mk = |segwit: bool| -> Vec<Vec<u8>> {
+            let mut v: Vec<Vec<u8>> = if multi { vec![vec![]] } else { vec![] };
+            v.extend(signers.iter().map(|id| sg(script, segwit, *id)));
+            v
+        };
+        wrappers(out, &mut go, script, &mk(false), &mk(true), &format!("refused-today: {}", reason));
+    }
+    // op count: thresh(1, pk, s:pk x 66) has 200 counted opcodes; one / two v:pk in front make 201 / 202
+    for extra in [1usize, 2] {
+        let n = 67u32;
+        let mut sc: Vec<u8> = vec![];
+        for e in 0..extra as u32 { sc.extend(push(&k(80 + e))); sc.push(0xad); }
+        sc.extend(push(&k(0))); sc.push(0xac);
+        for i in 1..n { sc.push(0x7c); sc.extend(push(&k(i))); sc.extend([0xac, 0x93]); }
+        sc.extend([0x51, 0x87]);
+        let mut w: Vec<Vec<u8>> = (1..n).map(|_| vec![]).collect();
+        w.push(sg(&sc, true, 0));
+        for e in (0..extra as u32).rev() { w.push(sg(&sc, true, 80 + e)); }
+        w.push(sc.clone());
+        go(out, ScriptBuf::from_bytes(p2wsh_prog(&sc)), ScriptBuf::new(), w, format!("raw wsh refused-today: {} opcodes", 200 + extra));
+    }
+    // tap leaves the Tap context refuses: CHECKMULTISIG, a 33-byte key
+    {
+        let sc = cat(&[&[0x51], &push(&x(0)), &push(&x(1)), &[0x52, 0xae]]);
+        let (spk, cb) = tr_commit(&sc, 0xc0, &[]);
+        let s0 = schnorr_sign_leaf(&tx, &spk, &sc, 0).unwrap_or_default();
+        go(out, spk, ScriptBuf::new(), vec![vec![], s0, sc.clone(), cb], "raw tr refused-today: multi in a tap leaf".into());
+    }
+    out.note("raw_channel_accepted", n_acc.get().to_string());
+}
+
+/// combinator-over-cast towers: the sugar casts t: (and_v(X,1)), l: (or_i(0,X)), u: (or_i(X,0)) over
+/// atoms and over one another, under every combinator position that takes a B / W / V argument, kept
+/// when the context types the result B
+fn cast_towers(ctx: CtxK) -> Vec<Node> {
+    use Node::*;
+    let b = if ctx == CtxK::Tap { 200 } else { 0 };
+    let bx = |n: Node| Box::new(n);
+    let pk = |i: u32| Check(bx(PkK(b + i)));
+    let t = |x: Node| AndV(bx(x), bx(True));
+    let l = |x: Node| OrI(bx(False), bx(x));
+    let u = |x: Node| OrI(bx(x), bx(False));
+    let v = |x: Node| Verify(bx(x));
+    let casts: Vec<Node> = vec![
+        t(v(pk(0))), t(v(Hash(ast::HK::Sha256, 0))), t(v(Older(10))),
+        l(pk(0)), l(After(100)), l(Hash(ast::HK::Hash160, 1)),
+        u(pk(0)), u(Older(10)),
+        u(l(pk(0))), l(u(pk(0))), t(v(u(pk(0)))), u(t(v(pk(0)))), l(t(v(Older(10)))),
+    ];
+    let mut out = vec![];
+    for c in &casts {
+        let cands = vec![
+            c.clone(),
+            AndB(bx(pk(7)), bx(Alt(bx(c.clone())))),
+            OrB(bx(pk(7)), bx(Alt(bx(c.clone())))),
+            OrD(bx(c.clone()), bx(pk(7))),
+            OrI(bx(c.clone()), bx(pk(7))),
+            AndOr(bx(c.clone()), bx(pk(7)), bx(pk(8))),
+            AndOr(bx(pk(7)), bx(c.clone()), bx(pk(8))),
+            AndOr(bx(pk(7)), bx(pk(8)), bx(c.clone())),
+            Thresh(2, vec![pk(7), Alt(bx(c.clone())), Swap(bx(pk(8)))]),
+            AndV(bx(v(c.clone())), bx(pk(7))),
+            AndV(bx(OrC(bx(c.clone()), bx(v(pk(7))))), bx(True)),
+            NonZero(bx(c.clone())),
+            AndB(bx(pk(7)), bx(Alt(bx(ZeroNotEqual(bx(c.clone())))))),
+            AndV(bx(v(pk(7))), bx(DupIf(bx(v(c.clone()))))),
+        ];
+        for n in cands {
+            let ok = match ctx {
+                CtxK::Segwitv0 => ast::to_ms::<PublicKey, miniscript::Segwitv0>(&n).map(|m| m.ty.corr.base == Base::B).unwrap_or(false),
+                CtxK::Legacy => ast::to_ms::<PublicKey, miniscript::Legacy>(&n).map(|m| m.ty.corr.base == Base::B).unwrap_or(false),
+                CtxK::Bare => ast::to_ms::<PublicKey, miniscript::BareCtx>(&n).map(|m| m.ty.corr.base == Base::B).unwrap_or(false),
+                CtxK::Tap => ast::to_ms::<XOnlyPublicKey, miniscript::Tap>(&n).map(|m| m.ty.corr.base == Base::B).unwrap_or(false),
+            };
+            if ok && !out.contains(&n) { out.push(n); }
+        }
+    }
+    out
+}
+
 /* ------------------------------------------------------------------ driver */
 
 fn dassets_subsets(nodes: &[&Node], cap: usize) -> Vec<DAssets> {
@@ -1218,7 +1622,10 @@ pub fn run(out: &mut Out, thorough: bool, seed: u64) {
         nodes.extend(frags.iter().filter(|t| t.base == Base::B).map(|t| t.node.clone()));
         // the shared designated fragments (every tier): fewer asset subsets / mutations each
         let n_wide = nodes.len();
+        let towers = ast::wrapper_towers(ctx);
         for dn in ast::dimension_corpus(ctx) { if !nodes.contains(&dn) { nodes.push(dn); } }
+        let n_cast = nodes.len();
+        for dn in cast_towers(ctx) { if !nodes.contains(&dn) { nodes.push(dn); } }
         if ctx == CtxK::Segwitv0 {
             // a raw key hash whose key is UNCOMPRESSED: the script names no key, so the Segwitv0 context
             // admits it; the 65-byte key only shows up in the witness (see `handbuilt_segwit_keys`)
@@ -1227,6 +1634,11 @@ pub fn run(out: &mut Out, thorough: bool, seed: u64) {
         }
         for (ni, node) in nodes.iter().enumerate() {
             let dim = ni >= n_wide;
+            // towers: what matters is that the tower is executed satisfied AND dissatisfied (full assets,
+            // without the outer key 7, without the tower's own keys), not the mutation classes
+            let tower = dim && (ni >= n_cast || towers.contains(node));
+            // the slot sweep runs on the hand corpus and the designated non-tower fragments
+            SWEEP.with(|c| c.set(ni < corpus_v0.len() || (dim && !tower)));
             for w in &wraps {
                 if let Some(d) = desc::build_desc(*w, node, 0) {
                     n_desc += 1;
@@ -1238,8 +1650,12 @@ pub fn run(out: &mut Out, thorough: bool, seed: u64) {
                     };
                     let hl = { let (mut a, mut o) = (vec![], vec![]); for n in [node] { n.locks(&mut a, &mut o); } (!a.is_empty(), !o.is_empty()) };
                     let case = Case { desc: &d, node: Some(node), ctx, key_ids: key_ids(&[node], &[]), info: format!("{}", d), sane, has_after: hl.0, has_older: hl.1, single_key: None };
-                    let (cap, nm) = if dim { (if thorough { 4 } else { 2 }, if thorough { 16 } else { 6 }) } else { (if thorough { 8 } else { 3 }, n_mut) };
-                    for (ai, a) in dassets_subsets(&[node], cap).into_iter().enumerate() {
+                    let (cap, nm) = if tower { (if thorough { 5 } else { 3 }, if thorough { 8 } else { 2 }) }
+                        else if dim { (if thorough { 4 } else { 2 }, if thorough { 16 } else { 6 }) } else { (if thorough { 8 } else { 3 }, n_mut) };
+                    let mut subsets = dassets_subsets(&[node], 12);
+                    if tower { if let Some(p) = subsets.iter().position(|a| !a.keys.contains(&7)) { let a = subsets.remove(p); subsets.insert(1.min(subsets.len()), a); } }
+                    subsets.truncate(cap);
+                    for (ai, a) in subsets.into_iter().enumerate() {
                         let mut prev = None;
                         for mall in [false, true] { do_case(out, &mut rng, &case, &[], &a, mall, nm, &mut prev, ai == 0 && (!dim || thorough || *w != Wrap::ShWsh)); }
                     }
@@ -1247,6 +1663,7 @@ pub fn run(out: &mut Out, thorough: bool, seed: u64) {
             }
         }
     }
+    SWEEP.with(|c| c.set(true));
     for w in [Wrap::Pkh, Wrap::Wpkh, Wrap::ShWpkh] {
         for key in [0u32, 1, 100] {
             if let Some(d) = desc::build_desc(w, &Node::True, key) {
@@ -1278,8 +1695,13 @@ pub fn run(out: &mut Out, thorough: bool, seed: u64) {
         ];
         frags.extend(ast::enumerate(ctx, &atoms, if thorough { 3 } else { 2 }, if thorough { 30 } else { 8 }, &mut rng)
             .into_iter().filter(|t| t.base == Base::B).map(|t| t.node));
+        let n_hand = 11usize;
         let n_wide = frags.len();
+        let towers = ast::wrapper_towers(ctx);
         for dn in ast::dimension_corpus(ctx) { if !frags.contains(&dn) { frags.push(dn); } }
+        let n_cast = frags.len();
+        for dn in cast_towers(ctx) { if !frags.contains(&dn) { frags.push(dn); } }
+        let n_frags = frags.len();
         if let Some(d) = desc::build_tr(3, &[]) {
             for sa in [false, true] {
                 let mut a = DAssets::default(); a.tapkey = true; a.schnorr_all = sa;
@@ -1301,7 +1723,14 @@ pub fn run(out: &mut Out, thorough: bool, seed: u64) {
                 let sane = leaves.iter().all(|l| ast::to_ms::<PublicKey, miniscript::Tap>(l).map(|m| m.validate(&<miniscript::Tap as miniscript::ScriptContext>::SANE).is_ok()).unwrap_or(false));
                 let hl = { let (mut a, mut o) = (vec![], vec![]); for n in leaves.iter() { n.locks(&mut a, &mut o); } (!a.is_empty(), !o.is_empty()) };
                 let case = Case { desc: &d, node: None, ctx, key_ids: key_ids(&refs, &[3]), info: format!("{}", d), sane, has_after: hl.0, has_older: hl.1, single_key: None };
-                for (ai, mut a) in dassets_subsets(&refs, if thorough { 4 } else { 2 }).into_iter().enumerate() {
+                // single leaves i < n_frags: designation as in the other streams
+                let tower = i < n_frags && i >= n_wide && (i >= n_cast || towers.contains(&leaves[0]));
+                SWEEP.with(|c| c.set(i < n_hand || (i < n_frags && i >= n_wide && !tower)));
+                let mut subsets = dassets_subsets(&refs, 12);
+                if tower { if let Some(p) = subsets.iter().position(|a| !a.keys.contains(&7)) { let a = subsets.remove(p); subsets.insert(1.min(subsets.len()), a); } }
+                subsets.truncate(if tower { if thorough { 5 } else { 3 } } else if thorough { 4 } else { 2 });
+                let n_mut = if tower { if thorough { 8 } else { 2 } } else { n_mut };
+                for (ai, mut a) in subsets.into_iter().enumerate() {
                     a.tapkey = i % 7 == 0;
                     a.schnorr_all = i % 3 == 0;
                     let mut prev = None;
@@ -1310,11 +1739,14 @@ pub fn run(out: &mut Out, thorough: bool, seed: u64) {
             }
         }
     }
+    SWEEP.with(|c| c.set(false));
     // ---- segwit v0 and the form of the key
     handbuilt_segwit_keys(out);
+    // ---- txdata no encoder produces, judged
+    raw_channel(out);
     // ---- arbitrary shapes: nothing may panic
     adversarial(out, &mut rng, if thorough { 30_000 } else { 3_000 });
     out.note("descriptors", n_desc.to_string());
     out.note("distinct_nontrivial", n_desc.to_string());
-    out.note("domain", "corpus + all B-typed fragments to depth 2/3 (quota-thinned) in wsh / sh-wsh / sh / bare, pkh / wpkh / sh-wpkh, tr key path and tr script path (single leaves and random trees) x asset subsets x {nonmall, mall} x (base tx; re-signed variants of version / nLockTime / nSequence around every lock; mutations of scriptSig and witness: drop, duplicate, swap, replace by empty / 1 / 2 / 0x00 / 32 zero bytes / junk DER / other keys' and other sighash types' valid signatures, flipped sighash byte, flipped bit, 0x00 / 0x01 appended to Schnorr signatures, annex, extra element, non-minimal push; another valid key alone / with its valid signature in every key-hash position; consistently replaced redeem script + witness in nested segwit; 01 added to the wrong stack on every output type) + the shared dimension corpus in every stream (incl. uncompressed keys in bare / sh / multi and raw key hashes) + every first-subset spend again as input 1 of a two-input transaction (Prevouts::All, One(0), One(1), stale index-0 signatures) + hand-built segwit-v0 spends with uncompressed keys".into());
+    out.note("domain", "corpus + all B-typed fragments to depth 2/3 (quota-thinned) in wsh / sh-wsh / sh / bare, pkh / wpkh / sh-wpkh, tr key path and tr script path (single leaves and random trees) x asset subsets x {nonmall, mall} x (base tx; re-signed variants of version / nLockTime / nSequence around every lock; mutations of scriptSig and witness: drop, duplicate, swap, replace by empty / 1 / 2 / 0x00 / 32 zero bytes / junk DER / other keys' and other sighash types' valid signatures, flipped sighash byte, flipped bit, 0x00 / 0x01 appended to Schnorr signatures, annex, extra element, non-minimal push; another valid key alone / with its valid signature in every key-hash position; consistently replaced redeem script + witness in nested segwit; 01 added to the wrong stack on every output type) + the shared dimension corpus in every stream (incl. uncompressed keys in bare / sh / multi and raw key hashes) + every first-subset spend again as input 1 of a two-input transaction (Prevouts::All, One(0), One(1), stale index-0 signatures) + hand-built segwit-v0 spends with uncompressed keys + ROUTES on every base spend (accessors, verify_sig on every key x signature element and with an out-of-range index, second iteration over the same Interpreter) + slot sweep on the hand corpus and the designated non-tower fragments (every satisfaction slot := empty / 1 / parseable junk signature / valid signature of every key; every pair of slots swapped; real and assume mode) + wrapper towers and combinator-over-cast towers (t: l: u: under every combinator position) with asset subsets ordered so that the tower runs satisfied AND dissatisfied + RAW CHANNEL judged for soundness (inner scripts of length 0..3 behind sh / wsh / sh-wsh / bare / tap leaf, witness-program look-alikes one byte short / long for versions 0, 1, 2, 16, -1 as scriptPubKey and as redeem script, control blocks at depth 0..3 with valid commitments over arbitrary leaves, both parities, truncated / extended / annex-tagged, leaf version c2 observed only; refused-today scripts: top-level K / V / W, missing s:, multi_a and x-only key in v0, CHECKMULTISIG in a tap leaf, pushdata1 key, non-minimal k, trailing opcode, 21-key multi next to 20, 202 opcodes next to 201) + the adversarial stream judged for soundness when anything is accepted".into());
 }
